@@ -12,6 +12,7 @@ RULE = ("each case runs a structure that contains chosen interaction classes: cu
         "reported protein side chains. Non-trivial: >= 1 Coulomb determinant and >= 1 hydrogen-bond "
         "determinant were checked; distinct = distinct input digests."
         " Exception-mutant cases: whole proteins with a SER/THR next to a HIS ring nitrogen or CYS sulfur rewritten as CYS (buried CYS-HIS / CYS-CYS pairs). 30 % of all runs carry neutral extra options.")
+RULE = RULE + ' Round 8: ion records carry element and formal-charge columns in the spellings 2+, +2 and blank.'
 ASSUMPTIONS = ["bounds are per conformation; AVR merges determinants with equal partner labels and is not bounded",
                "penalised (not reported) groups are outside the equal-and-opposite clause, as the statement says"]
 TIMEOUT = {"quick": 2400, "thorough": 14400}
